@@ -3,7 +3,7 @@ Bounds on the scoring functions of `score.rs` (model): every partial score fits 
 `u32`, and the dark-module percentage indexes `PERCENT_SCORE` in range as soon as one module is light.
 -/
 import FastQr.Model.Score
-import FastQr.Finite.TablesMisc
+import FastQr.Finite.TablesPercent
 import FastQr.Proofs.Lift
 
 namespace FastQr.Proofs.ScoreBounds
